@@ -1038,6 +1038,13 @@ class ComputeGraph(MultiDiGraph):
             lambda e: isinstance(e, Derivative) and e.expr.func.__name__ in ('absv', 'abs'),
             lambda e: Function('sign')(e.expr.args[0])
         )
+        # sign(u) is piecewise constant: its derivative is 0 wherever it exists (the backend may rename it, `fsign_<n>`). Without
+        # this rule the whole Jacobian entry that contains a sign term was left 0 ("could not differentiate")
+        expr = expr.replace(
+            lambda e: isinstance(e, Derivative) and 'sign' in e.expr.func.__name__,
+            lambda e: sp.Integer(0)
+        )
+        expr = expr.replace(lambda e: isinstance(e, sp.DiracDelta), lambda e: sp.Integer(0))
         # inverse trigonometric functions carry their numpy names (arctan, ...), which sympy does not know
         for fname, rule in (('arctan', lambda a: 1 / (1 + a ** 2)), ('arcsin', lambda a: 1 / sp.sqrt(1 - a ** 2)),
                             ('arccos', lambda a: -1 / sp.sqrt(1 - a ** 2))):
